@@ -1,6 +1,6 @@
-\* C06, exhaustive: forks above the finalized block (any content), detector, restart at any step
+\* C06 behaviour export (edge cover): two-block chain, one fork (which makes it three), detector, one restart
 CONSTANTS
-  N = 3
+  N = 2
   Chunks = {1,2}
   TipTags = {"latest"}
   BufCap = 1
@@ -18,5 +18,5 @@ CONSTANTS
 INIT Init
 NEXT Next
 VIEW view
-INVARIANTS Ordered Faithful NoSkip Converged RewindLow TypeOK
+ACTION_CONSTRAINT Dump
 CHECK_DEADLOCK FALSE
